@@ -254,7 +254,7 @@ def _special_value_rows(em):
         _special_value_rows - Handle "rows" special attribute, which differs if tagName is a textarea or frameset
     '''
     if em.tagName == 'textarea':
-        return convertToIntRange(em.getAttribute('rows', 2), minValue=1, maxValue=None, invalidDefault=2)
+        return convertToIntRange(em.getAttribute('rows', 2), minValue=1, maxValue=None, invalidDefault=2, emptyValue=EMPTY_IS_INVALID)
     else:
         # frameset
         return em.getAttribute('rows', '')
@@ -264,7 +264,7 @@ def _special_value_cols(em):
         _special_value_cols - Handle "cols" special attribute, which differs if tagName is a textarea or frameset
     '''
     if em.tagName == 'textarea':
-        return convertToIntRange(em.getAttribute('cols', 20), minValue=1, maxValue=None, invalidDefault=20)
+        return convertToIntRange(em.getAttribute('cols', 20), minValue=1, maxValue=None, invalidDefault=20, emptyValue=EMPTY_IS_INVALID)
     else:
         # frameset
         return em.getAttribute('cols', '')
@@ -357,11 +357,11 @@ IndexSizeError = IndexSizeErrorException()
 TAG_ITEM_ATTRIBUTES_SPECIAL_VALUES = {
     'tabIndex' : lambda em : convertToIntOrNegativeOneIfUnset(em.getAttribute('tabindex', None)),
     # TODO: span is minimum 1, but firefox (I think it's a bug) allows you to set to 0, it sets the html text to span="0" but value remains 1. Also, it is clamped at "1000" via dot-access, but the html string will go up to what appears to be a 32-bit variable overflowing
-    'span'     : lambda em : convertToIntRangeCapped(em.getAttribute('span', 1), minValue=1, maxValue=1000, invalidDefault=1),
+    'span'     : lambda em : convertToIntRangeCapped(em.getAttribute('span', 1), minValue=1, maxValue=1000, invalidDefault=1, emptyValue=EMPTY_IS_INVALID),
     # TODO: colSpan on invalid in firefox sets HTML attribute text to "0" but returns "1" on JS. We aren't doing the HTML attr portion
-    'colSpan'     : lambda em : convertToIntRangeCapped(em.getAttribute('colspan', 1), minValue=1, maxValue=1000, invalidDefault=1),
+    'colSpan'     : lambda em : convertToIntRangeCapped(em.getAttribute('colspan', 1), minValue=1, maxValue=1000, invalidDefault=1, emptyValue=EMPTY_IS_INVALID),
     # TODO: rowSpan on invalid in firefox sets HTML attribute text to "0" but returns "0" on JS. We aren't doing the HTML attr portion
-    'rowSpan'     : lambda em : convertToIntRangeCapped(em.getAttribute('rowspan', 1), minValue=0, maxValue=65534, invalidDefault=0),
+    'rowSpan'     : lambda em : convertToIntRangeCapped(em.getAttribute('rowspan', 1), minValue=0, maxValue=65534, invalidDefault=0, emptyValue=EMPTY_IS_INVALID),
     'hspace'     : lambda em : convertToPositiveInt(em.getAttribute('hspace', 0), invalidDefault=0),
     'vspace'     : lambda em : convertToPositiveInt(em.getAttribute('vspace', 0), invalidDefault=0),
     'maxLength'     : _special_value_maxLength,
